@@ -4,6 +4,8 @@ from framework import coq_bs, coq_N, coq_z, coq_bool, coq_list
 
 ID = 'C12'
 COQ_IMPORTS = ['C12_Model']
+MODELLED_FUNCS = {'sugar/core/cane.py': ['find_orfs', '_frame_start', '_inds2orf', 'match'],
+                  'sugar/core/seq.py': ['BioSeq.find_orfs', 'BioSeq.matchall', 'BioSeq.match', 'BioBasket.find_orfs']}
 GENERATORS = ['gen_codes']          # C12_Model uses the C05 model of BioSeq.rc, which reads the regenerated COMPLEMENT tables
 RULE = ('exhaustive strings over {A,T,G} up to length 6 (quick) / 9 (thorough; 29 523 strings x 3 configurations: default fwd, default '
         'both, one random mode) plus random DNA/RNA up to 600 columns assembled from random bases, injected start/stop codons on both '
@@ -368,23 +370,30 @@ def python_snippet(case):
             "for o in BioSeq(%r).find_orfs(**%r)])" % (case['s'], _kwargs(case)))
 
 
-LEVEL_TEXT = ('Machine-checked Coq theorems (9, all closed under the global context) about a line-by-line Gallina model of find_orfs, '
-              '_inds2orf and the codon locator of match(): for every sequence and every mode (always/once/never x need_stop) the fuelled pairing '
-              'loop terminates within |starts|+|stops|+1 iterations without assertion failure and every reported ORF lies inside the '
-              'sequence, respects minlen and carries the strand/rf of a requested frame (C12_orf_invariants); in default mode, for every '
-              'sequence and rf, the output equals frame by frame the declarative pairing of the strictly increasing codon lists '
-              '(C12_orf_default_spec, C12_codon_lists), whose meaning is proved (one ORF per stop at most, first start since the previous '
-              'stop, no stop inside, every qualifying stop served: C12_pairing_meaning); frames without a start contribute nothing; '
-              'frames count residues and codons hold three residues on gapped input, so default-mode ORFs hold a multiple of three '
-              'residues (C12_frame_counts_residues, C12_default_residues_div3, C12_default_gapfree_div3); the need_start="never" frame '
-              'start is the column after exactly k residues (C12_frame_start_residues). The model is tied to sugar by '
-              'differential testing on every run; an independent codon-scan oracle on the degapped strand checks the property text, '
-              'including the one-to-one correspondence with the degapped sequence, on the same cases.')
+LEVEL_TEXT = ('Machine-checked Coq theorems (13, all closed under the global context) about a line-by-line Gallina model of find_orfs, '
+              '_frame_start, _inds2orf and the codon locator of match(). Every clause of the property text is a theorem about the model: '
+              '(1) every mode, every sequence, rf, minlen, no hypothesis: the fuelled pairing loop terminates within |starts|+|stops|+1 '
+              'iterations without assertion failure and every ORF lies inside the sequence, respects minlen and carries the strand/rf of a '
+              'requested frame (C12_orf_invariants); minlen is a pure filter (C12_minlen_filter). (2) default mode: the output equals, '
+              'frame by frame, the declarative pairing of the strictly increasing codon lists (C12_orf_default_spec, C12_codon_lists) '
+              'whose meaning is proved: at most one ORF per stop, from the first start since the previous stop, no stop inside, every '
+              'qualifying stop served (C12_pairing_meaning); frames without a start contribute nothing (C12_no_start_no_orf); residue '
+              'counts are multiples of three (C12_default_residues_div3, C12_default_gapfree_div3). (3) the codon lists are exactly the '
+              'in-frame occurrences of the start/stop codons on gap-free input (C12_codons_gapfree_complete: the non-overlapping '
+              'finditer loses nothing) and the images of those of the degapped sequence on gapped input (C12_codon_lists_degap); frames '
+              'and the need_start="never" frame start count residues (C12_frame_counts_residues, C12_frame_start_residues). (4) P2, every '
+              'mode and both strands: the ORFs of the degapped sequence are exactly the ORFs of the gapped sequence under '
+              'p -> residues before column p (C12_gap_bijection). The model is tied to sugar by differential testing on every run; an '
+              'independent codon-scan oracle checks the property text on the same cases.')
 LEVEL_NOTE = ('Trusted: Coq kernel/vm_compute, the correspondence harness, CPython re/bisect/str.rstrip. Modelled rather than verified: '
-              'find_orfs, _frame_start, _inds2orf, match() with the default start/stop patterns and gap="-". The clause "results correspond '
-              'one-to-one to those on the degapped sequence" is decided by the relational oracle and the correspondence, not by a theorem '
-              '(P2 orf_gap_bijection not proved; proved instead: frames and the need_start="never" frame start count residues, codons hold '
-              'three residues). The defects never_frame_start / gap_tail found by this check are repaired in /repo (0bbdf85); their '
-              'witnesses are regression cases in corpus/C12 and an Example in C12_Props.v. rf tuples with repeated or out-of-range '
-              'frames are outside the domain. No axioms.')
+              'find_orfs, _frame_start, _inds2orf, match() with the default start/stop patterns and gap="-" (the tie to /repo is the '
+              'differential correspondence, i.e. testing). Tested only, not proved: the exact semantics of the once/never modes beyond '
+              'invariants and the gapped/degapped correspondence (first-principles oracle), BioBasket.find_orfs = concatenation, custom '
+              'start/stop patterns (outside the claim). Measured statement coverage of the modelled functions in the quick tier: '
+              'find_orfs 36/36, _frame_start 8/8, _inds2orf 12/12, BioSeq/BioBasket glue 11/11, match 49/53; the four missing lines of '
+              'match() (cane.py:210 `sub = sub.data` for a BioSeq pattern, 223 `gaps = None` for gap=None/rf=None, 240 and 254 '
+              '`return m` for matchall=False) cannot be reached through find_orfs, which always calls matchall with string patterns, '
+              'gap="-" and an rf; they belong to C13. The defects never_frame_start / gap_tail found by this check are repaired in /repo '
+              '(0bbdf85); their witnesses are regression cases in corpus/C12 and an Example in C12_Props.v. rf tuples with repeated or '
+              'out-of-range frames are outside the correspondence domain (the theorems themselves need no such hypothesis). No axioms.')
 TECHNIQUE = 'Coq proof over an executable model + differential correspondence + first-principles oracle'
